@@ -31,6 +31,12 @@ CHECKS = {
 NOT_YET = {}
 
 def main():
+    md = os.path.join(HERE, "harness", "checks")
+    for f in sorted(os.listdir(md)):
+        if f.endswith(".meta.json"):
+            pid = f.split(".")[0].upper()
+            if os.path.exists(os.path.join(md, pid.lower() + ".py")):
+                CHECKS[pid] = json.load(open(os.path.join(md, f)))
     props = [json.loads(l) for l in open(os.path.join(HERE, "properties.jsonl"))]
     checks, na = [], []
     for p in props:
